@@ -77,6 +77,16 @@ def rule_finish(ctx, f):
             ctx.check(ok, "C16-TS", b["id"] + "#finish",
                       "a path from the encoder's construction to the return does not call finish(): the trailing blocks/checksum are never written",
                       t["span"], detail="finish() on every path to the return")
+            # the input is written into the encoder before it is finished
+            writes = []
+            for wi, wt in F.calls(b):
+                if last_seg(F.callee_name(wt)) in ("write_all", "write", "extend_from_slice", "write_fmt") and len(wt["args"]) >= 2:
+                    dl = F.op_local(wt["args"][1])
+                    if dl is not None and any(a[0] == "arg" for a in fl.origins(dl)):
+                        writes.append(wi)
+            okw = bool(writes) and bool(fin) and all(cfg.all_paths_pass(0, [x], set(writes)) for x in fin)
+            ctx.check(okw, "C16-TS", b["id"] + "#writes-input", "the function's input never reaches the encoder before finish(): every input is encoded as the empty stream",
+                      t["span"], detail="write_all(data) before finish()")
             ats = fl.origins(0, passthrough=PASS_LAST + ("into_result",))
             from_fin = any(a[0] == "call" and last_seg(a[1]) == "finish" for a in ats) and not any(a[0] == "call" and last_seg(a[1]) not in ("finish", "into_result", "unwrap", "expect", "branch", "map_err", "ok") for a in ats)
             ctx.check(from_fin, "C16-TS", b["id"] + "#returns-finished",
@@ -238,6 +248,13 @@ def rule_a85(ctx, f):
         return
     divs = [F.const_int(t["args"][1]) for bi, t in F.calls(cb) if last_seg(F.callee_name(t)) == "divmod"]
     ctx.check(divs == [85, 85, 85, 85], "C16-SIB-a85", "enc::base85_chunk#base", "divisors %s (expected four times 85)" % divs, cb["span"], detail="4 x divmod(.., 85)")
+    # a group is the big-endian number of its four bytes (encoder) / is written back most significant byte first (decoder)
+    wb85 = f.body("enc::word_85")
+    enc_be = [last_seg(F.callee_name(t)) for bi, t in F.calls(cb) if last_seg(F.callee_name(t)) in ("from_be_bytes", "from_le_bytes", "from_ne_bytes")]
+    dec_be = [last_seg(F.callee_name(t)) for bi, t in F.calls(wb85)] if wb85 is not None else []
+    dec_be = [x for x in dec_be if x in ("to_be_bytes", "to_le_bytes", "to_ne_bytes")]
+    ctx.check(enc_be == ["from_be_bytes"] and dec_be == ["to_be_bytes"], "C16-SIB-a85", "enc::base85_chunk#byte-order", "byte order of a group: encoder %s, decoder %s "
+              "(ASCII85 groups are big-endian)" % (enc_be, dec_be), cb["span"], detail="from_be_bytes / to_be_bytes")
     offs = [F.const_int(o) for i, j, s in F.stmts(ab) if s[0] == "assign" and s[2][0] == "binop" and s[2][1].startswith("Add") for o in (s[2][2], s[2][3]) if F.const_int(o) is not None]
     dec = outcome_partition(sb, arg_subject(1), ret_shape).get("Some", set())
     ctx.check(offs == [33] and min(dec or {0}) == 33 and max(dec or {0}) == 33 + 84, "C16-SIB-a85", "enc::a85#offset",
@@ -252,6 +269,22 @@ def rule_a85(ctx, f):
         # dominated by an array equality test against zeros
         eqs = [x for x, tt in F.calls(eb) if last_seg(F.callee_name(tt)) in ("eq", "ne") and "[u8; 4]" in (tt.get("callee_full", "") + tt.get("resolved_full", ""))]
         okz = okz and inloop and any(cfg.dominates(x, bi) for x in eqs)
+        # ... and the push sits on the EQUAL side of that test (and only there)
+        side = False
+        for x, tt in F.calls(eb):
+            if x in eqs and tt.get("target") is not None:
+                sw = eb["blocks"][tt["target"]]["term"]
+                if sw["k"] != "switch" or F.op_local(sw["discr"]) != tt["dest"][0]:
+                    continue
+                arms = {a[0]: a[1] for a in sw["arms"]}
+                false_t = arms.get(0, sw.get("otherwise"))
+                true_t = sw.get("otherwise") if 0 in arms else arms.get(1)
+                eq_t = true_t if last_seg(F.callee_name(tt)) == "eq" else false_t
+                ne_t = false_t if eq_t == true_t else true_t
+                if eq_t is not None and (bi == eq_t or bi in cfg.reachable_from(eq_t, avoid={tt["target"]})) and \
+                        not (ne_t is not None and (bi == ne_t or bi in cfg.reachable_from(ne_t, avoid={tt["target"]} | set(loops)))):
+                    side = True
+        okz = okz and side
         # the loop that contains the `z` branch runs over complete four-byte groups only (a zero-padded final group of 1-3 bytes is not `z`)
         full = False
         for head, blk in loops.items():
@@ -262,6 +295,25 @@ def rule_a85(ctx, f):
         chunk4 = any(last_seg(F.callee_name(ct)) == "chunks_exact" and F.const_int(ct["args"][1]) == 4 for cb_, ct in F.calls(eb) if len(ct["args"]) > 1)
         okz = okz and full and chunk4
     ctx.check(okz, "C16-SIB-a85", "enc::encode_85#z", "`z` is emitted outside the full-group loop or without an all-zero test", eb["span"], detail="'z' only for a full [0;4] group")
+    # a final group of n < 4 bytes is written as its first n + 1 digits
+    efl = Flow(eb)
+    tails = 0
+    for bi, t in F.calls(eb):
+        if last_seg(F.callee_name(t)) == "index" and len(t["args"]) == 2 and "RangeTo<usize>" in t["arg_tys"][1]["s"] and "[u8; 5]" in t["arg_tys"][0]["s"]:
+            tails += 1
+            l = F.op_local(t["args"][1])
+            okt = False
+            for a in efl.origins(l, passthrough=()) if l is not None else []:
+                if a[0] == "agg":
+                    for o in a[3][2]:
+                        ol = F.op_local(o)
+                        ats = efl.origins(ol, passthrough=()) if ol is not None else []
+                        if any(x[0] == "binop" and x[1].startswith("Add") for x in ats) and any(x[0] == "const" and x[1].get("int") == 1 for x in ats) and \
+                                any(x[0] == "call" and last_seg(x[1]) == "len" for x in ats):
+                            okt = True
+            ctx.check(okt, "C16-SIB-a85", "enc::encode_85#tail-digits", "the digits written for a short final group are not the first len + 1 of the five: the decoder cannot "
+                      "rebuild the last byte(s)", t["span"], detail="&digits[..n + 1] for a final group of n bytes")
+    ctx.floor("C16-SIB-a85", tails, 1, "cut of the final group's digits")
     tail = [(bi, t) for bi, t in F.calls(eb) if last_seg(F.callee_name(t)) == "extend_from_slice" and any(F.const_bytes(a) == "~>" for a in t["args"])]
     if not tail:
         # constant may flow through a temp
